@@ -9,7 +9,7 @@ THEOREMS_NAT = [_L + n for n in ["Reasm.stepW_nat", "Sess.handleRecordRaw_nat", 
                                  "tlsRun_nat", "tlsFrames_nat", "quicRun_nat"]] + \
                [_NS + n for n in ["framesFrom_retag", "framesFrom_info_congr", "framesFrom_alike", "tlsFrames_alike",
                                   "go_filter", "go_shift", "Ex.alike_instance"]]
-THEOREMS_C09 = [_NS + n for n in ["export_key_delivery_independent_files"]]
+THEOREMS_C09 = [_NS + n for n in ["export_key_delivery_files"]]
 THEOREMS_C11 = [_NS + n for n in ["go_c_irrelevant", "export_checksum_filter_reader", "export_checksum_filter_file",
                                   "Ex.evKept_instance", "Ex.checksum_filter_file_instance"]]
 THEOREMS_C03 = [_NS + n for n in ["export_bystander_unaffected_file", "export_bystander_unaffected_encoded",
